@@ -18,6 +18,13 @@ Line protocol (one case per line, `key=value` tokens):
   block rows=<row;row;..> ro=<n> rs=<n> co=<n> cs=<n>          -> <row;row;..>
   close t=<rat> a=<rats> b=<rats>                             -> <bits>
   chk t=<rat> a=<row;row> b=<row;row> rows=<nats> cols=<nats>  -> 0|1   (check_jacobian(indices))
+
+  req <fd|cd|cs> <ser|par> isz=<nats> osz=<nats> x=<rats> ins=<nats> outs=<nats> xidx=<nats|[]> step=<default|s:|v:> poly=<P;..>
+     one request to the DisciplineJacApprox of the session (`new`/`setstep` = its `step` attribute): the discipline has
+     inputs / outputs of sizes isz / osz, polynomial outputs of the flat vector of all its inputs, local data x;
+     ins / outs = positions of the requested names, in the order of the request
+  answer:  B=<blk>|<blk>|..   one block per (output name, input name), outputs first; blk = row;row;..
+           E:step (inconsistent step size) / E:index
 -/
 
 def kv (toks : List String) (k : String) : Option String :=
@@ -107,8 +114,35 @@ def answerGrad (st : Approx) (scheme mode : String) (toks : List String) : Strin
     | _ => "bad-scheme"
   | _, _, _, _, _ => "bad-args"
 
+def parseScheme? : String → Option Scheme
+  | "fd" => some .fd
+  | "cd" => some .cd
+  | "cs" => some .cs
+  | _ => none
+
+def showBlocks (bs : List (List Vec)) : String :=
+  "B=" ++ "|".intercalate (bs.map showVecs)
+
+def answerReq (st : Approx) (scheme mode : String) (toks : List String) : String :=
+  match parseScheme? scheme, kv toks "isz" >>= parseNatList?, kv toks "osz" >>= parseNatList?,
+        kv toks "x" >>= parseRatList?, kv toks "ins" >>= parseNatList?, kv toks "outs" >>= parseNatList?,
+        kv toks "xidx" >>= parseNatList?, kv toks "step" >>= parseStepArg?, kv toks "poly" >>= parsePolys? with
+  | some sch, some isz, some osz, some x, some ins, some outs, some xidx, some sa, some ps =>
+    let D : Disc := ⟨isz, osz, polyFun ps, polyFunG ps⟩
+    let r : Request := ⟨outs, ins, xidx⟩
+    -- the object of the session: its `step` attribute, whatever it served before
+    let ja : JacApprox := ⟨st.resolve sa, none⟩
+    match (ja.op sch (mode == "par") D (.request x r)).2 with
+    | some bs => showBlocks bs
+    | none =>
+      match ja.step with
+      | .vec hs => if hs.length != (compsOf isz ins).length then "E:step" else "E:index"
+      | _ => "E:index"
+  | _, _, _, _, _, _, _, _, _ => "bad-args"
+
 def answer (st : Approx) (line : String) : String :=
   match tokens line with
+  | "req" :: scheme :: mode :: rest => answerReq st scheme mode rest
   | "grad" :: scheme :: mode :: rest => answerGrad st scheme mode rest
   | "gen" :: scheme :: rest => answerGen st scheme rest
   | "place" :: rest =>
